@@ -13,7 +13,7 @@ from ..values import to_term
 
 
 def ident_record(i):
-    from pycomm3.cip import VENDORS, PRODUCT_TYPES
+    VENDORS, PRODUCT_TYPES = se.id_tables()
     vt, pt = VENDORS.get(i["vendor"]), PRODUCT_TYPES.get(i["product_type"])
     r = {k: i[k] for k in ("vendor", "product_type", "product_code", "rev_major", "rev_minor", "status", "name")}
     r["serial_b"] = se.p32(i["serial"])
@@ -31,9 +31,9 @@ class Rec:
 
 def codec_events(rnd, thorough):
     from pycomm3.custom_types import ModuleIdentityObject, ListIdentityObject
-    from pycomm3.cip import VENDORS, PRODUCT_TYPES
+    VENDORS, PRODUCT_TYPES = se.id_tables()
     rec = Rec()
-    ids = list(range(0, 65536, 1 if thorough else 17)) + [0, 1, 65535] + [k for k in VENDORS if isinstance(k, int)][:400] + [k for k in PRODUCT_TYPES if isinstance(k, int)]
+    ids = list(range(0, 65536, 1 if thorough else 17)) + [0, 1, 65535] + [k for k in VENDORS if isinstance(k, int)] + [k for k in PRODUCT_TYPES if isinstance(k, int)]
     for n, x in enumerate(ids):
         which = n % 2
         i = S.identity(fw=rnd.randint(0, 255), serial=rnd.choice([0, 1, 0xFFFFFFFF, 0x0FFFFFFF, 0x10000000, rnd.getrandbits(32), rnd.getrandbits(12)]),
@@ -83,6 +83,14 @@ def session_scenarios(rnd, n):
             sc["project"], sc["mem"] = small_project(rnd)
             sc["driver"]["init_tags"] = False
             calls.append({"api": "get_plc_info"})
+        if k % 3 == 0:
+            # the device behind the address is exchanged: later answers describe the new device, earlier results stay what they were
+            other = S.identity(fw=rnd.choice([1, 33]), serial=rnd.getrandbits(32), vendor=rnd.choice([1, 5, 40000]), ptype=rnd.choice([12, 14, 7]),
+                               pcode=rnd.randint(0, 65535), minor=rnd.randint(0, 255), status=(rnd.getrandbits(8), rnd.getrandbits(8)),
+                               name="".join(chr(rnd.choice([66, 50, 45])) for _ in range(rnd.choice([0, 3, 40]))))
+            other["ip"] = [rnd.getrandbits(8) for _ in range(4)]
+            other["state"] = rnd.getrandbits(8)
+            calls += [{"api": "_env", "intent": {"identity": other}}, {"api": "_list_identity"}, {"api": "get_module_info", "slot": 2}]
         calls.append({"api": "close"})
         sc["calls"] = calls
         scs.append(sc)
